@@ -662,30 +662,36 @@ Definition amerge {V} (a b : list (string * V)) : list (string * V) :=
     (keep_attrs defaults to True): variable attrs, the attrs of every output
     coordinate whose name exists in the source and the Dataset attrs are copied
     back from the source. *)
+(** [_maybe_reproject] of one data variable *)
+Definition reproject_ds_var (fx : fixes) (tol itol : Q) (src : xobj) (dst : gbox) (dst_nodata : option Q)
+           (nv : string * xvar) : res (string * xobj) :=
+  match ds_getitem src (fst nv) with
+  | None => Err EOther
+  | Some dv =>
+      st <- locate_geo_info fx tol dv ;;
+      match gs_box st with
+      | None =>
+          (* pass-through of variables without a geobox, CRS coordinates stripped *)
+          let strip := map fst (locate_crs_coords (x_gm dv) (x_attrs dv) (x_coords dv)) in
+          Ok (fst nv, XObj false (x_dims dv) (x_gm dv) (x_attrs dv)
+                           (filter (fun nc => negb (smem (fst nc) strip)) (x_coords dv)) [])
+      | Some _ => o <- reproject_da fx tol itol dv dst dst_nodata ;; Ok (fst nv, o)
+      end
+  end.
+
+Fixpoint mapM_res {A B} (f : A -> res B) (l : list A) : res (list B) :=
+  match l with
+  | [] => Ok []
+  | a :: r => b <- f a ;; bs <- mapM_res f r ;; Ok (b :: bs)
+  end.
+
 Definition reproject_ds (fx : fixes) (tol itol : Q) (src : xobj) (dst : gbox) (dst_nodata : option Q)
   : res xobj :=
   st <- locate_geo_info fx tol src ;;
   match gs_box st with
   | None => Err EValue
   | Some _ =>
-      let one (nv : string * xvar) : res (string * xobj) :=
-        match ds_getitem src (fst nv) with
-        | None => Err EOther
-        | Some dv =>
-            st <- locate_geo_info fx tol dv ;;
-            match gs_box st with
-            | None =>
-                let strip := map fst (locate_crs_coords (x_gm dv) (x_attrs dv) (x_coords dv)) in
-                Ok (fst nv, XObj false (x_dims dv) (x_gm dv) (x_attrs dv)
-                                 (filter (fun nc => negb (smem (fst nc) strip)) (x_coords dv)) [])
-            | Some _ => o <- reproject_da fx tol itol dv dst dst_nodata ;; Ok (fst nv, o)
-            end
-        end in
-      outs <- (fix go (l : list (string * xvar)) : res (list (string * xobj)) :=
-                 match l with
-                 | [] => Ok []
-                 | nv :: r => o <- one nv ;; os <- go r ;; Ok (o :: os)
-                 end) (x_vars src) ;;
+      outs <- mapM_res (reproject_ds_var fx tol itol src dst dst_nodata) (x_vars src) ;;
       let cs := fold_left (fun acc no => amerge acc (x_coords (snd no))) outs [] in
       let dims := fold_left (fun acc no => amerge acc (x_dims (snd no))) outs [] in
       let vars := map (fun no => (fst no, XVar (map fst (x_dims (snd no))) (x_attrs (snd no)) (x_gm (snd no)))) outs in
